@@ -31,7 +31,8 @@ EXPLANATION = ("the functional postconditions of search / group / the entity met
 
 
 def obligations(ctx):
-    return ctx.verify(FUNCTIONS) + lemmas(ctx)
+    from props._shared import typing_state_census
+    return list(ctx.verify(FUNCTIONS) + lemmas(ctx)) + [typing_state_census(ctx, 'C02')]
 
 
 def lemmas(ctx):
